@@ -292,36 +292,44 @@ structure EdgeState where
   ssa : Nat
   path : Path          -- steps so far, in order
 
+/-- `ind_to_ssas.setdefault(ix, set()).add(i)` (path_basic.py:860) -/
+def initAddIx (i : Nat) (m : List (Ix × List Nat)) (ix : Ix) : List (Ix × List Nat) :=
+  match m.lookup ix with
+  | none => m ++ [(ix, [i])]
+  | some _ => m.map fun kv => if kv.1 == ix then (kv.1, setAdd i kv.2) else kv
+
+/-- body of the population loop for input `i` with indices `term` (path_basic.py:858-861) -/
+def initStep (st : List (Ix × List Nat) × List (Nat × List Ix)) (it : List Ix × Nat) :
+    List (Ix × List Nat) × List (Nat × List Ix) :=
+  (it.1.foldl (initAddIx it.2) st.1, st.2 ++ [(it.2, it.1.eraseDups)])
+
 /-- the population loop (path_basic.py:858-861) -/
 def edgeInit (inputs : List (List Ix)) : EdgeState :=
-  let step := fun (st : List (Ix × List Nat) × List (Nat × List Ix)) (it : List Ix × Nat) =>
-    let i := it.2
-    let m := it.1.foldl (fun (m : List (Ix × List Nat)) ix =>
-      match m.lookup ix with
-      | none => m ++ [(ix, [i])]
-      | some _ => m.map fun kv => if kv.1 == ix then (kv.1, setAdd i kv.2) else kv) st.1
-    (m, st.2 ++ [(i, it.1.eraseDups)])
-  let r := (inputs.zip (List.range inputs.length)).foldl step ([], [])
+  let r := (inputs.zip (List.range inputs.length)).foldl initStep ([], [])
   { indToSsas := r.1, ssaToInds := r.2, ssa := inputs.length, path := [] }
 
-/-- inner double loop (path_basic.py:873-884) for one contracted id `s`; `none` = `KeyError` -/
+/-- body of the inner loop (path_basic.py:875-884) for one index `jx` of the contracted tensor
+    `s`: if `jx` is still to be processed, `s` is replaced by the new id `ssa` in its set of
+    carriers and `jx` joins the new term; `none` = `KeyError` of `jx_ssas.remove(s)` -/
+def absorbIx (ssa s : Nat) (acc : List (Ix × List Nat) × List Ix) (jx : Ix) :
+    Option (List (Ix × List Nat) × List Ix) :=
+  match acc.1.lookup jx with
+  | none => some acc
+  | some set =>
+    if set.contains s then
+      some (acc.1.map (fun kv => if kv.1 == jx then (kv.1, setAdd ssa (kv.2.filter (· != s))) else kv),
+            if acc.2.contains jx then acc.2 else acc.2 ++ [jx])
+    else none
+
+/-- the loops at path_basic.py:873-884 for one contracted id `s` (`ssa_to_inds.pop(s)`, then the
+    indices of `s`); `none` = `KeyError` -/
 def edgeAbsorb (ssa : Nat) (s : Nat) (acc : List (Ix × List Nat) × List (Nat × List Ix) × List Ix) :
     Option (List (Ix × List Nat) × List (Nat × List Ix) × List Ix) :=
   match acc.2.1.lookup s with
   | none => none
   | some inds =>
-    let s2i := acc.2.1.filter (fun kv => kv.1 != s)
-    inds.foldl (fun (o : Option (List (Ix × List Nat) × List (Nat × List Ix) × List Ix)) jx =>
-      match o with
-      | none => none
-      | some (i2s, s2i', term) =>
-        match i2s.lookup jx with
-        | none => some (i2s, s2i', term)
-        | some set =>
-          if set.contains s then
-            some (i2s.map (fun kv => if kv.1 == jx then (kv.1, setAdd ssa (kv.2.filter (· != s))) else kv),
-                  s2i', if term.contains jx then term else term ++ [jx])
-          else none) (some (acc.1, s2i, acc.2.2))
+    (inds.foldl (fun o jx => o.bind (fun a => absorbIx ssa s a jx)) (some (acc.1, acc.2.2))).map
+      fun r => (r.1, acc.2.1.filter (fun kv => kv.1 != s), r.2)
 
 /-- one iteration of the main loop (path_basic.py:865-889) -/
 def edgeStep (st : EdgeState) (ix : Ix) : Option EdgeState :=
